@@ -79,6 +79,11 @@ impl SubRule {
         }
     }
 
+    /// Generous upper bound on the passes a rule can legitimately make over `word`
+    fn max_passes(word: &Word) -> usize {
+        4 * word.syllables.iter().map(|s| s.segments.len() + 1).sum::<usize>() + 16
+    }
+
     pub(crate) fn apply(&self, word: Word) -> Result<Word, RuleRuntimeError> {
         // RuleType::Substitution  => {/* input>env>output */},
         // RuleType::Metathesis    => {/* skip calc output */},
@@ -91,9 +96,15 @@ impl SubRule {
         
         let mut word = word;
         let mut cur_index = SegPos::new(0, 0);
+        // A pass consumes at least one segment or boundary of the word, so far more passes than that means we are stuck
+        let mut passes_left = Self::max_passes(&word);
         // TODO(girv): `$ > *` or any broad deletion rule without context/exception should  give a warning to the user
         loop {
             #[cfg(feature = "verif")] crate::verif::tick(32);
+            if passes_left == 0 {
+                return Err(RuleRuntimeError::NoProgress(self.input[0].position))
+            }
+            passes_left -= 1;
             self.alphas.borrow_mut().clear();
             self.variables.borrow_mut().clear();
             let (res, mut next_index) = self.input_match_at(&word, cur_index)?;
@@ -443,6 +454,10 @@ impl SubRule {
         let back_alphas = self.alphas.borrow().clone();
         let back_varlbs = self.variables.borrow().clone();
         
+        if match_min > Self::max_passes(word) {
+            // more repetitions than the word has positions
+            return Ok(false)
+        }
         let mut index = 0;
         while index < match_min {
             #[cfg(feature = "verif")] crate::verif::tick(44);
@@ -479,7 +494,8 @@ impl SubRule {
         *self.alphas.borrow_mut() = back_alphas.clone();
         *self.variables.borrow_mut() = back_varlbs.clone();
         
-        let max = match_max.unwrap_or(usize::MAX);
+        // An optional cannot usefully repeat more often than the word has positions (guards `(X,0)` when X matches without consuming)
+        let max = match_max.unwrap_or(usize::MAX).min(Self::max_passes(word));
         while index < max {
             #[cfg(feature = "verif")] crate::verif::tick(46);
             *state_index = back_state;
@@ -796,8 +812,14 @@ impl SubRule {
                 let is_context_after = before_cont.is_empty() && !after_cont.is_empty();
 
                 let mut pos = SegPos::new(0, 0);
+                // An insertion uses up one position of the word, so far more passes than that means we are stuck
+                let mut passes_left = Self::max_passes(word);
                 while res_word.in_bounds(pos) {
                     #[cfg(feature = "verif")] crate::verif::tick(52);
+                    if passes_left == 0 {
+                        return Err(RuleRuntimeError::NoProgress(self.input[0].position))
+                    }
+                    passes_left -= 1;
                     self.alphas.borrow_mut().clear();
                     self.variables.borrow_mut().clear();
                     match self.insertion_match(&res_word, pos)? {
@@ -904,8 +926,14 @@ impl SubRule {
         let mut start_pos = start_pos;
         
         // FIXME: This is scuffed
+        // The scan restarts at most once per position and context element, so far more passes than that means we are stuck
+        let mut passes_left = Self::max_passes(word) * (bef_states.len() + 1);
         'outer: while word.in_bounds(start_pos) {
             #[cfg(feature = "verif")] crate::verif::tick(53);
+            if passes_left == 0 {
+                return Err(RuleRuntimeError::NoProgress(bef_states[0].position))
+            }
+            passes_left -= 1;
             match self.insertion_after(bef_states, word, start_pos)? {
                 Some(mut ins_pos) => {
                     let mut pos = ins_pos;
@@ -955,8 +983,14 @@ impl SubRule {
             state_index = 1;
         }
 
+        // The scan restarts at most once per position and context element, so far more passes than that means we are stuck
+        let mut passes_left = Self::max_passes(word) * (states.len() + 1);
         while word.in_bounds(cur_pos) {
             #[cfg(feature = "verif")] crate::verif::tick(55);
+            if passes_left == 0 {
+                return Err(RuleRuntimeError::NoProgress(states[0].position))
+            }
+            passes_left -= 1;
             if self.context_match(states, &mut state_index, word, &mut cur_pos, true, false)? {
                 if state_index >= states.len() - 1 {
                     return Ok(Some(cur_pos))
@@ -999,8 +1033,14 @@ impl SubRule {
         let mut state_index = 0;
         let mut match_begin = None;
 
+        // The scan restarts at most once per position and context element, so far more passes than that means we are stuck
+        let mut passes_left = Self::max_passes(word) * (states.len() + 1);
         while word.in_bounds(cur_pos) {
             #[cfg(feature = "verif")] crate::verif::tick(56);
+            if passes_left == 0 {
+                return Err(RuleRuntimeError::NoProgress(states[0].position))
+            }
+            passes_left -= 1;
             let before_pos = cur_pos;
             if self.context_match(states, &mut state_index, word, &mut cur_pos, true, true)? {
                 if match_begin.is_none() {
